@@ -76,7 +76,7 @@ Fixpoint stream_enc (fuel : nat) (N : nat) (input : list Z) : option (list Z) :=
 Definition b64_stream_encode (N : nat) (input : list Z) : option (list Z) :=
   stream_enc (S (length input)) N input.
 
-(** * base64-encode-header (base64.scm:347-372) on byte lists
+(** * base64-encode-header (base64.scm:347-372, REPAIRED: fixes/C19-base64-encode-header-no-room-on-first-line) on byte lists
     [name] = the charset name, [nl] = the newline separator; start-col / max-col as in the code. *)
 Definition round4 (i : Z) : Z := ash_l (ash_r i 2) 2.
 
@@ -100,13 +100,13 @@ Definition b64_header (name : list Z) (bs : list Z) (start_col max_col : Z) (nl 
   let prefix := [61; 63] ++ name ++ [63; 66; 63] in               (* "=?" enc "?B?" *)
   let prefix_length := 2 + Z.of_nat (length prefix) in
   let effective := round4 (max_col - prefix_length) in
-  let first := round4 (effective - start_col) in
+  let first := Z.max 0 (round4 (effective - start_col)) in
   let str := b64_encode bs in
   let len := Z.of_nat (length str) in
   let close := [63; 61] in                                          (* "?=" *)
   if len <=? first then prefix ++ str ++ close
   else
     let sep := close ++ nl ++ [9] ++ prefix in
-    (if 0 <? first then prefix ++ firstn (Z.to_nat first) str ++ sep else [])
+    (if 0 <? first then prefix ++ firstn (Z.to_nat first) str ++ sep else nl ++ [9] ++ prefix)
     ++ join sep (chop (length str) (skipn (Z.to_nat first) str) (Z.to_nat effective))
     ++ close.
